@@ -134,7 +134,7 @@ def run_check(tier, seed):
         broken.append({'kind': 'harness-build', 'log': out[-3000:]})
         return finish(ev, PROP, findings, broken)
     rnd = random.Random(seed)
-    per = 16 if tier == 'quick' else 200
+    per = 9 if tier == 'quick' else 200
     cases = []
     for mode, no_open, no_opendir in configs(tier):
         for j in range(per):
